@@ -55,7 +55,15 @@ def valid_locs(spec):
 
 
 def build_grid(spec, loc=None):
-    """the real FINAM grid"""
+    """the real FINAM grid; "to_rect": the rectilinear grid derived from it by `to_rectilinear()` (same geometry,
+    same layout flags)"""
+    g = _build_grid(spec, loc)
+    if spec.get("to_rect") and hasattr(g, "to_rectilinear"):
+        g = g.to_rectilinear()
+    return g
+
+
+def _build_grid(spec, loc=None):
     k = spec["kind"]
     if k == "esri":
         return fm.EsriGrid(ncols=spec["ncols"], nrows=spec["nrows"], cellsize=float(spec["cellsize"]),
